@@ -226,7 +226,7 @@ func nonTrivialFull(w *World) bool {
 	case "C04":
 		return w.Sim.Faults["proc.restart"] > 0 && s["cron.enqueue"] > 0
 	case "C20":
-		return w.Sim.Faults["api.drop"]+w.Sim.Faults["api.lostack"]+w.Sim.Faults["api.conflict"]+w.Sim.Faults["proc.crash"] > 1
+		return w.Sim.Faults["api.drop"]+w.Sim.Faults["api.lostack"]+w.Sim.Faults["api.conflict"]+w.Sim.Faults["proc.crash"] > 0
 	}
 	return w.Sim.callN > 0
 }
